@@ -17,6 +17,11 @@ Tie (DESIGN.md 3.2 / section 7 C06):
         then the object is called again with its own input / memory / zero): the Lean model `callTwice`
         (the code as it is: iterators as the first call left them; a Stream-gain call deletes
         `denpoly[0]` of the object) and the contract `specCallTwice` (coefficient streams continued);
+  (vi)  entry "hub" (harness/props/c06hub.py): leaves are real `Stream(itertools.repeat(c, n))`, `count`, `islice`,
+        generator, list iterator, counting source, raising source, ControlStream; each used m >= 2 times by
+        `Poly.__mul__` / `Poly.__truediv__` / the Stream-gain rewriting, or stored directly twice; the Lean machine
+        `ALV.C06.Hub.callH` (tee groups with shared buffers) predicts outputs, the pulls of every SOURCE after every
+        output, the pulls when the generator has ended, and 0 pulls when `filt(x)` returns;
   (iv)  entry "expr": the filter is built by an expression tree over `z**-k`, numbers and Streams
         with + - * / (ZFilter / Poly arithmetic, thub bookkeeping inside `Poly.__mul__`); the Lean
         model evaluates the same tree with the C07 `Poly` model instantiated at stream coefficients.
@@ -31,6 +36,7 @@ import common
 from common import enc, dec, err_kind
 from props.c04 import val, tag, exact, Unparsed, _var, _is_const, _flat_sum, _mem_obj, _memory
 from props.c04 import _fold as _fold_c04
+from props import c06hub as hub
 
 
 def _fold(node):
@@ -80,8 +86,17 @@ TRUSTED = [
     "float regime of a call (zero spelled int / bool / float or left to its default 0.0, integer Poly divisor): "
     "outputs are compared with relative tolerance 1e-6 against the exact model (source IR, pull counts, lengths "
     "and error kinds stay exact)",
-    "itertools.tee / StreamTeeHub are modelled as independent iterators over the same items; that the underlying "
-    "source is advanced once per sample is measured by the counting sources of this tie",
+    "itertools.tee / StreamTeeHub: in the list model (entries call / call2 / expr) the copies are independent "
+    "iterators over the same items; in the machine ALV/Model/C06Hub.lean (entry hub) a tee group is a shared buffer "
+    "with one position per copy over its upstream, Poly.__mul__ / __truediv__ / the Stream-gain rewriting allocate "
+    "the groups; proved there: buffer length = max over copies for any nesting / interleaving, source pulls = buffer "
+    "length and every copy reads the source's items in order for a hub directly over a source, exactly one pull per "
+    "output for loops over such hubs; for NESTED hubs (hub over a product over hub copies: products of products, the "
+    "Stream-gain path on Stream coefficients) that the source is pulled once per sample is measured by the entry hub "
+    "on the real objects (pull counts read off itertools.repeat / count / list_iterator themselves), not proved",
+    "hand-written builders mulHub / divHub / gainHub / PE.build / callH (which tee copy meets which, order of the "
+    "next calls in one evaluation, what a failed evaluation leaves pulled): modelled from lazy_poly.py / "
+    "lazy_filters.py, tied by outputs, per-output pull traces and final pull counts of the entry hub",
 ]
 ASSUMPTIONS = [
     "a generator whose coefficient iterator meets StopIteration ENDS (D13 repaired in /repo: try / except "
@@ -94,7 +109,9 @@ ASSUMPTIONS = [
     "answer (ZeroDivisionError before anything is read, theorem no_gain_raises) is compared",
     "every Stream object is used once in the expression that builds the filter (the library's own rule: 'after "
     "declaring z as function of x and y, you should not use x and y anymore'); sharing goes through the "
-    "library's thub / copy, which is what Poly.__mul__ and ZFilter.__add__ do internally",
+    "library's thub / copy, which is what Poly.__mul__ and ZFilter.__add__ do internally.  What happens when the "
+    "rule is broken — the same Stream object stored directly in m coefficients — is stated and tied too (theorem "
+    "shared_stream_object, entry hub shape 'twice': m pulls per sample, the coefficients get interleaved items)",
     "the all-zero filter (no numerator, no feedback) with a Stream gain yields the zero value once per input "
     "without ever reading the gain stream (C04's clause for the all-zero filter); model and spec follow the code; "
     "Lean states the corner exactly: allzero_stream_gain / allzero_stream_gain_shape / "
@@ -112,9 +129,14 @@ MANIFEST = {
                  "trees read at time n = arithmetic of fractions of Laurent polynomials on the n-th items) + "
                  "translator tie T3 + exact I/O and pull-count differential over call shapes, memory kinds, "
                  "coefficient iterable kinds, raising sources and two-call histories",
-    "note": "56 theorems; PENDING: callTwice_eq_specCallTwice_PENDING (the two-call contract from raw pairs for "
-            "histories whose first output was ended by a coefficient stream; proved: both sides are the same tvspec "
-            "when it was ended by its input, constant gain and Stream gain).  The filter arithmetic clause is proved "
+    "note": "67 theorems; callTwice_eq_specCallTwice is proved for every two-call history (incl. those whose first "
+            "output was ended by a coefficient stream).  PENDING: hub_nested_reads_once_PENDING (reads-once for NESTED "
+            "hubs on the whole call; proved for hubs directly over their source, the max-over-copies invariant for any "
+            "nesting; the statement is evaluated on every generated input of the entry hub).  The tee / thub bookkeeping is an operational "
+            "machine (ALV.C06.Hub: sources, tee groups with shared buffers, Poly.__mul__ / __truediv__ / Stream-gain "
+            "rewriting allocate the hubs) with theorems hub_advances_max_over_copies, hub_copy_is_real_copy, "
+            "hub_finite_repeat, hub_reads_once(_per_sample), shared_stream_object, call_reads_nothing, hub_loop_step, "
+            "tied on real itertools leaves by the entry hub.  The filter arithmetic clause is proved "
             "for every ZFilter operator on filter objects (zfilter_*_elementwise, exact up to the normalisation "
             "delay) and for every expression tree of any depth (expr_elementwise, expr_freeze, "
             "expr_constant_streams, expr_reads_once).  Two-call model follows the repaired code (D16, D13 fixed in "
@@ -483,6 +505,8 @@ def _coef_obs(v):
 
 
 def impl(c):
+    if c["entry"] == "hub":
+        return hub.impl(c)
     import audiolazy.lazy_filters as lf
     from audiolazy.lazy_stream import MemoryLeakWarning
     srcs = [Src(d) for d in c.get("srcs", [])]
@@ -597,6 +621,8 @@ def _tree_req(c, t, n):
 
 
 def request(c):
+    if c["entry"] == "hub":
+        return hub.request(c)
     n = len(c["xs"]) + (len(c["second"]["xs"]) if c["entry"] == "call2" else 0)
     r = {"entry": c["entry"], "zero": exact(c["zero"]), "xs": [exact(x) for x in c["xs"]]}
     if c["entry"] == "call2":
@@ -678,6 +704,8 @@ def _ckey(c):
 
 
 def compare(c, io, drv):
+    if c["entry"] == "hub":
+        return hub.compare(c, io, drv)
     _TOL[0] = 1e-6 if floaty(c) else 0
     try:
         probs = _compare(c, io, drv)
@@ -954,6 +982,8 @@ def _model_positions(c, model):
 
 
 def nontrivial(c, io):
+    if c["entry"] == "hub":
+        return hub.nontrivial(c, io)
     return "err" in io or bool(io.get("out"))
 
 
@@ -961,6 +991,8 @@ def nontrivial(c, io):
 # classification (known findings)
 # ---------------------------------------------------------------------------------------------
 def classify(c, io, drv):
+    if c["entry"] == "hub":
+        return hub.classify(c, io, drv)
     _TOL[0] = 1e-6 if floaty(c) else 0
     try:
         return _classify(c, io, drv)
@@ -1309,6 +1341,9 @@ def generate(rng, tier, scale=1):
     max_len = 12 if quick else 40
     if scale == 1:
         cases.extend(_fixed_cases())
+        cases.extend(hub.fixed_cases())
+    for _ in range((700 if quick else 12000) * scale):
+        cases.append(hub.gen_case(rng, max_len))
     for _ in range((900 if quick else 18000) * scale):
         cases.append(_call_case(rng, max_len))
     for _ in range((900 if quick else 18000) * scale):
@@ -1365,6 +1400,8 @@ def _fixed_cases():
 # evidence histograms
 # ---------------------------------------------------------------------------------------------
 def tally(eng, c, io):
+    if c["entry"] == "hub":
+        return hub.tally(eng, c, io)
     eng.count("entry", c["entry"])
     eng.count("route", c.get("route", "expr"))
     eng.count("len_x", min(len(c["xs"]), 16))
@@ -1456,6 +1493,10 @@ def _early(c):
 
 
 def shrink(c):
+    if c["entry"] == "hub":
+        for cand in hub.shrink(c):
+            yield cand
+        return
     verdict = _VERDICT.get(_ckey(c))
     mark = bool(c.get("_noD13")) or (verdict is False) or (verdict is None and not _early(c))
     for cand in _shrink(c):
@@ -1562,6 +1603,10 @@ def _tree_shrinks(t, srcs):
 
 
 def neighbours(c):
+    if c["entry"] == "hub":
+        for cand in hub.neighbours(c):
+            yield cand
+        return
     base = dict(c, xs=c["xs"] if c["xs"] else ["1/1", "2/1", "-3/2"])
     yield base
     yield dict(base, xs=["1/1", "2/1", "-3/2", "5/1", "1/3", "-2/1"], zero="0/1", mem=None)
